@@ -11,6 +11,7 @@ against the model.  C10 adds kills of a server at a random step and Puts with wr
 import itertools, os, select, signal, struct, subprocess, time
 from bbox import Sandbox, Rng, blake3_hex, hexs, CLI_BIN
 import bb_hub as H
+import bb_gate as G
 
 PATHS = ["f", "g", "d/h"]
 CONTENTS = [b"alpha " * 200, b"BETA" * 4000, b"gamma\n", b"", b"delta" * 9000, b"e"]
@@ -74,10 +75,31 @@ class Server:
             self.p.kill()
 
 
-def gen_ops(rng, tree, pid):
+def parse_replies(b):
+    """reply tokens from a server's whole stdout"""
+    out, i = [], 0
+    while i + 4 <= len(b):
+        n = struct.unpack(">I", b[i:i + 4])[0]
+        body = b[i + 4:i + 4 + n]
+        if len(body) < n:
+            out.append("reply:SHORT"); break
+        i += 4 + n
+        v, _ = H.cdec(body)
+        content = None
+        if isinstance(v, dict) and "Content" in v:
+            ln = v["Content"]["len"]
+            content = b[i:i + ln]
+            if len(content) < ln:
+                out.append("content:SHORT"); break
+            i += ln
+        out.append(H.reply_tok(v, content))
+    return out
+
+
+def gen_ops(rng, tree, pid, path=None):
     ops = []
     for _ in range(rng.range(1, 2)):
-        p = rng.pick(PATHS)
+        p = path or rng.pick(PATHS)
         r = rng.below(10)
         cur = tree.get(p)
         curh = bytes.fromhex(blake3_hex([cur])[0]) if cur is not None else None
@@ -161,7 +183,7 @@ def run(pid, tier, seed, rundir, model_run):
         observed = {k: v["reply"] for k, v in done}
         case_info.append({"first": len(all_queries), "n": len(qs), "perms": cands, "observed": observed, "final": H.tree_tok_hash(final), "rep": rep, "leftovers": leftovers,
                           "acked": [(k, clients[k[0]][k[1]]) for k, v in done if v["reply"] and v["reply"].startswith("put:1:")]})
-        all_queries += qs
+        all_queries.extend(qs)
 
     for ci in range(ncases):
         tree = {}
@@ -243,6 +265,78 @@ def run(pid, tier, seed, rundir, model_run):
         count("ops", sum(len(cl) for cl in clients))
         if len(res["samples"]) < 6:
             res["samples"].append({"clients": rep["clients"], "schedule": order[:12], "replies": {f"{k[0]}.{k[1]}": v for k, v in observed.items()}, "candidate_orders": len(cands)})
+    # ---- tier 2: the same oracles under SYSCALL-LEVEL schedules (LD_PRELOAD gate, tools/bb_gate.py):
+    # one request per server process; every file-system call on the tree is a scheduling point; schedules
+    # with ≤ 2 preemptions are sampled systematically, the rest at random; C10 adds a SIGKILL at a random step.
+    gerr = G.build_gate()
+    if gerr:
+        res["broken"].append(f"{pid}/corr/gate: cannot build the schedule gate: {gerr}")
+    else:
+        nconf = 40 if tier == "thorough" else 5
+        nsched = 30 if tier == "thorough" else 10
+        for gi in range(nconf):
+            tree = {}
+            for _ in range(rng.below(3)):
+                tree[rng.pick(PATHS)] = rng.pick(CONTENTS)
+            nclients = 2 if rng.coin(3, 4) else 3
+            hot = rng.pick(PATHS)
+            clients = []
+            for _ in range(nclients):
+                op = gen_ops(rng, tree, pid, path=hot if rng.coin(3, 4) else None)[0]
+                clients.append([op])
+            # make them collide: most requests of a configuration address the same path
+            allowed = set(tree.values()) | {op["content"] for cl in clients for op in cl if op["kind"] == "put" and op["variant"] == "ok"}
+            pols = G.preemption_bounded(nclients, 9, 2)
+            chosen = [pols[rng.below(len(pols))] for _ in range(nsched // 2)] + [None] * (nsched - nsched // 2)
+            for si, pol in enumerate(chosen):
+                kill_at = None
+                if pid == "C10" and rng.coin(1, 4):
+                    kill_at = (rng.below(14), rng.below(nclients))
+                with Sandbox(pid) as sb:
+                    root = sb.path("hub")
+                    sb.write_tree(root, tree)
+                    os.makedirs(root, exist_ok=True)
+                    rd = sb.path("gate"); os.makedirs(rd, exist_ok=True)
+                    reqs = [H.MAGIC + cl[0]["bytes"] for cl in clients]
+                    run_ = G.GatedRun(CLI_BIN, sb.env, sb.dir, root, reqs, rd)
+                    rep = {"initial": sorted(tree), "clients": [[op["desc"] for op in cl] for cl in clients], "gated": True, "policy": pol, "kill_at": kill_at}
+                    bad_steps = []
+
+                    def on_step(r):
+                        now = nonstaging(H.hub_tree(root))
+                        for p_, content in now.items():
+                            if content not in allowed:
+                                bad_steps.append((r.step, p_, len(content), any(content == op["content"] for cl in clients for op in cl if op["kind"] == "put")))
+
+                    G.drive(run_, policy=pol, rng=rng if pol is None else None, kill_at=kill_at, on_step=on_step)
+                    run_.finish()
+                    steps_checked += run_.step
+                    rep["schedule"] = [f"{i}:{c}" for (_, i, c) in run_.events]
+                    if run_.stuck:
+                        res["violations"].append(("gated-run-stuck", run_.stuck, rep))
+                    for (st_, p_, ln_, okc) in bad_steps[:1]:
+                        key = "unverified-content-visible" if okc else "partial-or-mixed-content-visible"
+                        res["violations"].append((key, f"after gated step {st_} hub path {p_} holds {ln_} bytes that are neither initial content nor the complete verified bytes of one Put", rep))
+                    opres = {}
+                    for pr in run_.procs:
+                        toks = parse_replies(open(pr.out, "rb").read())
+                        reply = toks[0] if toks and not pr.killed else None
+                        if len(toks) > 1:
+                            res["violations"].append(("extra-reply", f"server {pr.idx} wrote {len(toks)} replies to one request", rep))
+                        if reply is None and not pr.killed and not run_.stuck:
+                            res["violations"].append(("no-reply", f"client {pr.idx} got no reply to {clients[pr.idx][0]['desc']} (exit {pr.p.returncode}, stderr {getattr(pr, 'stderr', '')[-200:]})", rep))
+                        start = pr.first_go if pr.first_go is not None else (pr.end if pr.end is not None else 0)
+                        opres[(pr.idx, 0)] = {"start": start, "end": None if pr.killed else pr.end, "reply": reply, "killed": pr.killed}
+                        if pr.killed:
+                            count("gated/kills")
+                    final = nonstaging(H.hub_tree(root))
+                    leftovers = [k for k in H.hub_tree(root) if k.endswith(".copia-tmp")]
+                finish_case(tree, clients, opres, final, leftovers, rep)
+                count("gated/schedules")
+                count(f"gated/steps", run_.step)
+                count("gated/policy=" + ("random" if pol is None else f"{len(pol)}-segment"))
+                if gi == 0 and si < 2 and len(res["samples"]) < 8:
+                    res["samples"].append({"gated_schedule": rep["schedule"][:24], "clients": rep["clients"]})
     dec.close()
     with open(os.path.join(rundir, "ops.txt"), "w") as f:
         f.write("\n".join(all_queries) + ("\n" if all_queries else ""))
@@ -272,5 +366,7 @@ def run(pid, tier, seed, rundir, model_run):
                rule="2–3 clients, each with its own real server process on one root, 1–2 requests each over {Put (content in 1–3 pieces, expected = current / none / stale"
                     + (", wrong hash" if pid == "C10" else "") + "), Delete, Get} on 3 shared paths; a random interleaving at piece granularity (a whole request of one client can run while another's Put is half-streamed)"
                     + ("; a server is SIGKILLed at a random step in a third of the cases" if pid == "C10" else "")
-                    + ". After every step the tree is read (C10 predicate); at the end replies + tree are checked for linearizability by running every real-time-compatible order through the sequential Lean model.")
+                    + ". After every step the tree is read (C10 predicate); at the end replies + tree are checked for linearizability by running every real-time-compatible order through the sequential Lean model."
+                    " Tier 2 (gated): 2–3 server processes with ONE request each run under an LD_PRELOAD gate that makes every file-system call on the tree (open/create/truncate, write, flock, rename, unlink) a scheduling point; "
+                    "one process runs at a time, schedules with ≤ 2 preemptions are sampled systematically and the rest at random (the step granularity of the Lean transition system); same oracles.")
     return res
